@@ -64,6 +64,9 @@ pub enum ReadMode {
     /// take the payload out of the message and read it chunk by chunk in a separate task that
     /// outlives the handler
     Detached,
+    /// like `Detached`, but the task starts reading only when the controller opens its gate
+    /// (`PubRead`, call * 1000 + 999) - possibly after the connection has gone
+    DetachedLate,
 }
 
 #[derive(Debug, Clone)]
